@@ -533,7 +533,7 @@ def c20_init(stream, scen=None):
     """family sysi (one system; every `counts` comes after its first simulate): every registered asset
     has been initialised exactly once -- also the assets constructed while the others were being
     initialised, and the ones constructed later."""
-    if not scen or not any(l[:3] in (['S', 'asset', 'maker'], ['S', 'asset', 'nester']) for l in scen):
+    if not scen or not any(l[:3] in (['S', 'asset', 'maker'], ['S', 'asset', 'nester']) or l[:2] == ['S', 'newrm'] for l in scen):
         return []
     if any(l.startswith('sres err') for l in stream):
         return []          # outside the family's shape
